@@ -228,7 +228,16 @@ def shard(ctx):
             check_invalid(ctx, rng.choice(['select 1 from t', src.text()]),
                           opts, name)
             continue
-        if x < 0.3:
+        if x < 0.09:
+            # deep nesting (C15 explores it in isolated processes; here a
+            # few depths with random option sets, in-process)
+            from vlib import c15_cell
+            kind = 'deepnest'
+            text = c15_cell.build(rng.choice(
+                ['parens', 'calls', 'case', 'brackets', 'subqueries',
+                 'paren_lists', 'open_parens', 'operators']),
+                rng.choice([60, 130, 260, 400]))
+        elif x < 0.3:
             kind, text = 'grammar', src.text()
         elif x < 0.5:
             kind, text = 'nearvalid', near_valid(rng, gen)
